@@ -205,10 +205,7 @@ class ndpoly(numpy.ndarray):  # pylint: disable=invalid-name
         assert isinstance(allocation, int) and allocation >= len(
             keys
         ), "Not enough memory allocated; increase 'allocation'"
-        if allocation > len(keys):
-            allocation_ = numpy.arange(allocation - len(keys), len(keys))
-            allocation_ = [str(s) for s in allocation_]
-            keys = numpy.concatenate([keys, allocation_])
+        # the keys are exactly the fields of the structured array
         obj.allocation = allocation
 
         if names is None:
